@@ -130,7 +130,7 @@ inductive CPc
   | checkFlag
   /-- `vx.PostEvent(QuitEvent{})` -/
   | postQuit
-  /-- `Suspend`: `if vx.suspended { return nil }; vx.suspended = true` -/
+  /-- `Suspend`: `vx.suspendMu.Lock(); if vx.suspended { return nil }; vx.suspended = true` -/
   | checkSuspended
   /-- `vx.parser.Close()` = `p.close <- true` -/
   | signalClose
@@ -138,7 +138,8 @@ inductive CPc
   | writeDA1
   /-- `vx.parser.WaitClose()`: the `select` over `p.closed` and `p.sequences` -/
   | waitClosed
-  /-- the rest of `Suspend`, `console.Close()`, deferred `close(vx.chQuit)` -/
+  /-- (the rest of `Suspend` and its `suspendMu.Unlock()` belong to the step that leaves `waitClosed`)
+  `console.Close()`, deferred `close(vx.chQuit)` -/
   | closeQuit
   | returned
   deriving DecidableEq, Repr
@@ -215,6 +216,9 @@ structure SSys where
   callers : List Caller := []
   closedFlag : Bool := false
   suspendedFlag : Bool := false
+  /-- `vx.suspendMu` is held: some goroutine is inside `Suspend` past its guard (F210 repaired: /repo
+  "fix: Suspend and Resume are serialised by a mutex") -/
+  suspLock : Bool := false
   /-- how many times `close(vx.chQuit)` ran (2 = "close of closed channel" panic) -/
   quitCloses : Nat := 0
   da1Pending : Nat := 0
@@ -268,10 +272,15 @@ def closeStep (s : SSys) (inClose : Bool) : CPc → Option (SSys × CPc)
   | .checkFlag => if s.closedFlag then some (s, .returned) else some ({ s with closedFlag := true }, .postQuit)
   | .postQuit => some ({ s with queueLen := if s.queueLen < s.qcap then s.queueLen + 1 else s.queueLen }, .checkSuspended)
   | .checkSuspended =>
-      if s.suspendedFlag then some (s, afterSuspend inClose) else some ({ s with suspendedFlag := true }, afterGuard s)
+      -- `vx.suspendMu.Lock()` (blocks while another goroutine is inside Suspend); the guard; the lock is
+      -- released when Suspend returns (at once if already suspended)
+      if s.suspLock then none
+      else if s.suspendedFlag then some (s, afterSuspend inClose)
+      else some ({ s with suspendedFlag := true, suspLock := true }, afterGuard s)
   | .signalClose => if s.closeSig < 1 then some ({ s with closeSig := s.closeSig + 1 }, afterSignal s) else none
   | .writeDA1 => some ({ s with da1Pending := s.da1Pending + 1 }, afterDA1 s)
-  | .waitClosed => if s.closedSig > 0 then some ({ s with closedSig := s.closedSig - 1 }, afterSuspend inClose) else none
+  | .waitClosed =>
+      if s.closedSig > 0 then some ({ s with closedSig := s.closedSig - 1, suspLock := false }, afterSuspend inClose) else none
   | .closeQuit => some ({ s with quitCloses := s.quitCloses + 1 }, .returned)
   | .returned => none
 
@@ -342,7 +351,7 @@ def snext (s : SSys) : SLabel → Option SSys
   | .callClose => some { s with callers := s.callers ++ [{ pc := .checkFlag, inClose := true }] }
   | .callSuspend => some { s with callers := s.callers ++ [{ pc := .checkSuspended, inClose := false }] }
   | .resume =>
-      if s.ppc == .done then
+      if s.ppc == .done && !s.suspLock then            -- `Resume` takes `vx.suspendMu` too
         some { s with ppc := .top, seqs := [], seqsClosed := false, closeSig := 0, closedSig := 0, ipc := .select,
                       olds := if s.ipc == .done then s.olds else s.olds ++ [⟨s.ipc, s.seqs⟩],
                       suspendedFlag := if s.resumeClears then false else s.suspendedFlag }
